@@ -27,6 +27,9 @@ CHECKS["C06"] = ("exhaustive shape x aliasing-route x mutation x side matrix wit
 CHECKS["C07"] = ("exhaustive decision-table testing: generated class fixtures for every (member kind x modifier x static-ness x access site x operation) and (declared type x value kind x boundary) cell, judged against the statement's table",
          "Complete cross product of visibility cells (9 access sites incl. closures, dynamic names and parent::, two hierarchy depths) and of type cells (10 declared types x 11 value kinds x 7 boundaries) plus abstract/interface instantiation; a denied access / foreign value must raise a catchable error and leave the member unchanged, an allowed access / value of the type must go through unchanged.",
          "Coercible scalar-to-scalar combinations are recorded, not judged; every cell runs as its own script on a fresh VM.")
+CHECKS["C08"] = ("exhaustive enumeration of small class/interface hierarchies (+ seeded larger ones) judged against an independent reachability and nearest-definition computation",
+         "All hierarchies with <= 3 classes and <= 2 interfaces (forests x interface-extends DAGs x implements subsets x method placements), seeded hierarchies to 5+4; per hierarchy every (object class, type) pair through instanceof, typed parameter and catch, every call form ($o->m(), parent::, self::, static::), and a structural-typing (like) enumeration over class chains.",
+         "Root classes extend Exception so one hierarchy serves all judges; like is asserted for targets that declare their methods directly.")
 NOT_YET = {
 }
 
